@@ -836,6 +836,8 @@ func c18(args []string) int {
 	sIncr := seeds("W3 W3 SW D SW", "W3 W3 SW SNAP D IVAC SW", "W3 W3 SW VOPEN D IVAC SW", "W1 SW W1 SW CMP:1 W1 SW VOPEN")
 	sPoll := seeds("W3 SW VOPEN", "W3 SW W1 SW CMP:1 W1 SW VOPEN")
 	sLock := seeds("W3 W3 SW VOPEN VLOCK", "W1 SW CMP:1 W3 SW VOPEN W1 SW VLOCK")
+	sHold := seeds("W3 W3 SW VOPEN VLOCK D VAC SW VPOLL", "W3 W3 SW VOPEN VLOCK D VAC SW", "W3 W3 SW VOPEN VLOCK W3 SW VPOLL", "W1 SW VOPEN VLOCK W3 W3 SW VPOLL D VAC SW")
+	aHold := sub("VPOLL VUNLOCK VLOCK W1 SW")
 	sGap := seeds("W1 SW VOPEN W3 SW U SW W1 SW", "W1 SW W1 SW CMP:1 W1 SW VOPEN W1 SW W1 SW", "W1 SW CMP:1 W1 SW CMP:1 CMP:2 W1 SW VOPEN W1 SW")
 	sTT := seeds("W1 SW W3 SW D VAC SW W1 SW", "W1 SW W1 SW CMP:1 W1 SW SNAP W1 SW", "W3 SW W1 SW CMP:1 D VAC SW CMP:1 CMP:2 W1 SW")
 	sTTI := seeds("W3 W3 SW D IVAC SW W1 SW CMP:1 W1 SW", "W3 SW SNAP W3 SW D SW IVAC SW")
@@ -853,6 +855,10 @@ func c18(args []string) int {
 		{Name: "retention/512-none/cache1", Cfg: n512, Cache: one(n512), Alphabet: aGap, Depth: d(2, 3), Seeds: append(sGap, strings.Fields("W1 SW VOPEN W1 SW W1 SW W1 SW CMP:1"))},
 		{Name: "pruned/512-incr/cache-default", Cfg: i512p, Alphabet: aGap, Depth: d(2, 3), Seeds: sGap},
 		{Name: "locked/512-none/l0-pruned/cache-default", Cfg: n512p, Alphabet: sub("W1 D VAC SW CMP:1 VPOLL VUNLOCK VLOCK"), Depth: d(2, 4), Seeds: sLock},
+		// a read lock held across several polls: whatever a poll defers to the unlock (pending index, pending
+		// replace after a shrink) must survive further polls, with and without new files, until VUNLOCK
+		{Name: "held-lock/512-none/cache-default", Cfg: n512, Alphabet: aHold, Depth: d(3, 5), Seeds: sHold},
+		{Name: "held-lock/512-none/cache1", Cfg: n512, Cache: one(n512), Alphabet: aHold, Depth: d(2, 4), Seeds: sHold},
 		{Name: "seeded/512-none/cache-default", Cfg: n512, Alphabet: aPoll, Depth: d(2, 3), Seeds: sNone},
 		{Name: "seeded/512-incr/cache-default", Cfg: i512, Alphabet: aPollI, Depth: d(2, 3), Seeds: sIncr},
 		{Name: "seeded/4096-none/cache1", Cfg: n4096, Cache: one(n4096), Alphabet: aPoll, Depth: d(2, 3), Seeds: sNone},
